@@ -11,12 +11,17 @@ HB = "repr::heap_buffer::HeapBuffer::"
 def rule_checked_ctors(ctx, rule="C06-ctor"):
     F = ctx.F
     W = F.ptr_bytes
-    maxlen = F.const_scalar("repr::heap_buffer::internal::MAX_LEN")
     want = (1 << (8 * (W - 1))) - 1 - (1 if F.ptr_bits == 32 else 0)
-    ctx.ob(rule, "repr::heap_buffer::internal::MAX_LEN", "value", maxlen == want, how="MAX_LEN = 2^%d - %d (the length field's %d bytes%s)" % (8 * (W - 1), 1 if F.ptr_bits == 64 else 2, W - 1, "" if F.ptr_bits == 64 else ", minus the on-heap marker"),
-           detail="MAX_LEN evaluates to %s, expected %s" % (maxlen, want))
+    want_static = (1 << (8 * (W - 1))) - 1
+    maxlen = F.const_scalar("repr::heap_buffer::internal::MAX_LEN")
+    if maxlen is not None:
+        ctx.ob(rule, "repr::heap_buffer::internal::MAX_LEN", "value", maxlen == want, how="MAX_LEN = 2^%d - %d (the length field's %d bytes%s)" % (8 * (W - 1), 1 if F.ptr_bits == 64 else 2, W - 1, "" if F.ptr_bits == 64 else ", minus the on-heap marker"),
+               detail="MAX_LEN evaluates to %s, expected %s" % (maxlen, want))
     sml = F.const_scalar("repr::static_buffer::StaticBuffer::MAX_LENGTH")
-    ctx.ob(rule, "repr::static_buffer::StaticBuffer::MAX_LENGTH", "value", sml == (1 << (8 * (W - 1))) - 1, how="MAX_LENGTH = 2^%d - 1" % (8 * (W - 1)), detail="StaticBuffer::MAX_LENGTH evaluates to %s" % sml)
+    if sml is not None:
+        ctx.ob(rule, "repr::static_buffer::StaticBuffer::MAX_LENGTH", "value", sml == want_static, how="MAX_LENGTH = 2^%d - 1" % (8 * (W - 1)), detail="StaticBuffer::MAX_LENGTH evaluates to %s" % sml)
+    # the bounds are judged by value at the guards below, wherever the constants are declared
+    maxlen, sml = want, want_static
     # aggregates of the checked newtypes occur only inside their constructors, behind the bound
     sites = {}
     for path, b in F.bodies.items():
@@ -185,3 +190,24 @@ def rule_layout_checked(ctx, rule="C06-layout"):
         cb = F.bodies[c]
         raw += [s["rv"]["op"] for blk in cb.blocks for s in blk["stmts"] if s["k"] == "assign" and s["rv"]["k"] == "bin" and s["rv"]["op"] in SINK_OPS]
     ctx.ob(rule, b.path, "no-raw-arith", not raw, how="no raw +,*,<< in the layout computation", detail="layout computation uses raw arithmetic %s" % raw)
+
+
+def rule_room(ctx, rule="C06-room"):
+    """a fresh or resized buffer has room for what is copied into it: the capacity operand of
+    with_exact_capacity / realloc is bounded below by the length of the text, by construction"""
+    from guards import inlined_sites, anchors
+    F = ctx.F
+    OKCAP = [r"^core::cmp::Ord::max\(repr::heap_buffer::HeapBuffer::len\(.*p1.*\), p2\)$",
+             r"^repr::heap_buffer::amortized_growth\(repr::Repr::len\(p1\), p2\)$",
+             r"^repr::heap_buffer::amortized_growth\(core::str::<impl str>::len\(p1\), p2\)$"]
+    n = 0
+    for path, b in F.bodies.items():
+        if path.startswith(HB) or path not in anchors(F) or b.j["kind"] == "closure":
+            continue
+        for st in inlined_sites(b, lambda nm: nm in (HB + "with_exact_capacity", HB + "realloc")):
+            n += 1
+            cap = st.desc(1)
+            ok = any(re.match(p, cap) for p in OKCAP)
+            ctx.ob(rule, path, "capacity>=len:" + st.label(), ok, line=st.line, how="capacity operand is max(len, _) or amortized_growth(len, _): at least the text length",
+                   detail="%s is given capacity %s, which is not bounded below by the length of the text written into the buffer (smaller request -> heap overflow / capacity < len)" % (st.name, cap))
+    ctx.need(rule, "crate", "sites", n >= 3, "only %d exact-capacity / realloc call sites" % n, how="%d sites" % n)
